@@ -142,11 +142,11 @@ func run(o *Options) int {
 }
 
 type group struct {
-	name  string
-	n     int
-	fail  []*Obligation
-	secs  float64
-	back  map[string]bool
+	name string
+	n    int
+	fail []*Obligation
+	secs float64
+	back map[string]bool
 }
 
 func groupObls(obls []*Obligation) []*group {
